@@ -52,7 +52,8 @@ def ws(s: str) -> str:
 
 
 def _title(t):
-    return t
+    """Titles are text: compared up to runs of whitespace (a title may be wrapped onto the next line)."""
+    return t if t is None else _WS.sub(" ", t)
 
 
 def _def_title(t):
@@ -61,7 +62,7 @@ def _def_title(t):
         return None
     if len(t) >= 2 and ((t[0] == t[-1] and t[0] in "\"'") or (t[0] == "(" and t[-1] == ")")):
         t = t[1:-1]
-    return re.sub(r"\\([!-/:-@\[-`{-~])", r"\1", t)
+    return _WS.sub(" ", re.sub(r"\\([!-/:-@\[-`{-~])", r"\1", t))
 
 
 def canon_inlines(children) -> tuple:
